@@ -200,7 +200,7 @@ Section Analysis.
     - right. apply (ext_covers_char o y ch) in He; auto.
       assert (cw o ch = 2) by lia. assert (c = S c1) by lia. destruct He as [-> _]. subst c.
       unfold left_wide. rewrite Hy. unfold is_wide. rewrite Ek, H. simpl. discriminate.
-    - left. rewrite (ext_covers_img o y i) in He; auto. eapply covered_by_img; eauto.
+    - left. rewrite (ext_covers_img o y i) in He; auto. exact (covered_by_img r1 c1 y i r c Hy Ek He).
     - contradiction.
   Qed.
 
@@ -457,7 +457,7 @@ Section Analysis.
       (* a plain cell *)
       pose proof (good_cells _ _ _ _ GN r c new Hn) as Hg. unfold cell_good in Hg.
       destruct (ckind new) as [ch|i|gl] eqn:Ek.
-      2:{ exfalso. eapply covered_by_img; eauto. eapply img_covers_self; eauto. }
+      2:{ exfalso. apply (covered_by_img r c new i r c Hn Ek (img_covers_self r c new i Hn Ek) Ecov). }
       2:{ contradiction. }
       destruct (skipcond m oldc new) eqn:Es.
       - left. apply skipcond_true in Es. destruct Es as [Hnd [Hi|Heq]].
@@ -481,10 +481,10 @@ Section Analysis.
           pose proof Hi as Hi2. apply img_at_some in Hi2. destruct Hi2 as (x & Hx & Hkx & Hfx).
           destruct (dec r0 c0) eqn:Ed.
           * assert (gget M r c = Some MDamaged).
-            { eapply (sp_old HP r0 c0 x); eauto. rewrite (ext_covers_img o x i); auto. }
+            { apply (sp_old HP r0 c0 x r c Hx Ed); auto. rewrite (ext_covers_img o x i); auto. }
             congruence.
           * pose proof (sp_same HP r0 c0 Hr0 Hc0 Ed) as Hsame. rewrite Hsame in Hx.
-            eapply covered_by_img; eauto.
+            apply (covered_by_img r0 c0 x i r c Hx Hkx Hin Ecov).
         + destruct (left_wide o old r c) as [f|] eqn:Elo; auto. exfalso.
           unfold left_wide in Elo. destruct c as [|c']; [discriminate|].
           destruct (gget old r c') as [y|] eqn:Ey; [|discriminate].
@@ -493,7 +493,7 @@ Section Analysis.
           apply Nat.eqb_eq in Ew.
           destruct (dec r c') eqn:Ed.
           * assert (gget M r (S c') = Some MDamaged).
-            { eapply (sp_old HP r c' y); eauto; try lia. apply (ext_covers_char o y chy); auto. lia. }
+            { apply (sp_old HP r c' y r (S c') Ey Ed); auto; try lia. apply (ext_covers_char o y chy); auto. lia. }
             congruence.
           * pose proof (sp_same HP r c' Hr ltac:(lia) Ed) as Hsame. rewrite Hsame in Ey.
             unfold left_wide in Elw. rewrite Ey in Elw. unfold is_wide in Elw. rewrite Eky, Ew in Elw.
